@@ -644,8 +644,10 @@ def _tracking_starts_from_stable_count(chk, repo):
     chk.analysed(e)
     ecfg = e.cfg()
     st2 = [n for n in ecfg.nodes if n.kind == "stmt" and n.has_await() and "wait_for_count_stable" in n.text(200)]
-    later = [n for n in ecfg.nodes if n.kind == "stmt" and n.ast is not None and st2 and n.id != st2[0].id and not isinstance(n.ast, ast.Pass) and
-             not (isinstance(n.ast, ast.Expr) and isinstance(n.ast.value, ast.Constant)) and not ecfg._only_logs(n)]
+    # what "reports the ball as leaving": the timer that fires _ball_left, its registration, and the value handed back
+    later = [n for n in ecfg.nodes if n.kind == "stmt" and n.ast is not None and st2 and n.id != st2[0].id and
+             (isinstance(n.ast, ast.Return) or any(call_attr(c) in ("ensure_future", "create_task", "sleep", "add_done_callback", "call_later") or "_ball_left" in src(c)
+                                                    for c in n.calls()))]
     ok = len(st2) == 1 and not ecfg.guards_at(st2[0].id) and all(ecfg.dominates(st2[0].id, n.id) for n in later)
     chk.ob("STABLE-4", "the entrance counter lets a pending count settle before it reports the ball as leaving", ok, e.where(), construct=e.ident,
            text="entrance counter leave from a stable count")
